@@ -1101,3 +1101,172 @@ pub fn c06_tool(t: &InfoTool, out: &mut Outcome) {
         }
     }
 }
+
+// =============================================================================================
+// C04 tool part: `bigtools intersect` and `bigbedtobed --chrom/--start/--end`;
+// C08 tool part: `bigbedtobed --zoom`
+
+fn bed_lines_for(ch: &str, got: &str) -> Result<Vec<(u32, u32, String)>, String> {
+    let mut v = vec![];
+    for l in got.lines() {
+        let f: Vec<&str> = l.splitn(4, '\t').collect();
+        if f.len() < 3 || f[0] != ch {
+            return Err(format!("unexpected output line {:?}", l));
+        }
+        v.push((f[1].parse().map_err(|_| format!("bad line {:?}", l))?, f[2].parse().map_err(|_| format!("bad line {:?}", l))?, f.get(3).unwrap_or(&"").to_string()));
+    }
+    Ok(v)
+}
+
+pub fn c04_tool(c: &crate::model::BedCase, out: &mut Outcome) {
+    let Some(bytes) = crate::wfam::do_write_bed(c, out) else { return };
+    let wd = workdir();
+    let dir = wd.path();
+    std::fs::write(dir.join("f.bb"), &bytes).unwrap();
+    let tags = crate::drive::bed_tags(c);
+    for ch in &c.chroms {
+        let mut pts = std::collections::BTreeSet::new();
+        pts.insert(0u32);
+        pts.insert(ch.len);
+        for i in &ch.items {
+            for p in [i.s, i.e] {
+                pts.insert(p);
+                pts.insert(p.saturating_sub(1));
+                pts.insert((p + 1).min(ch.len));
+            }
+        }
+        let pts: Vec<u32> = pts.into_iter().collect();
+        let mut queries: Vec<(u32, u32)> = pts.windows(2).map(|w| (w[0], w[1])).collect();
+        queries.push((0, ch.len));
+        for i in (0..pts.len()).step_by(3) {
+            for j in (i + 2..pts.len()).step_by(4) {
+                queries.push((pts[i], pts[j]));
+            }
+        }
+        queries.truncate(14);
+        for (qs, qe) in queries {
+            if qs >= qe {
+                continue;
+            }
+            let judge = |what: &str, got: Result<Vec<(u32, u32, String)>, String>, out: &mut Outcome| {
+                match got {
+                    Err(e) => out.fail("tool_range_output_malformed", &tags, format!("{} {} [{},{}): {}", what, ch.name, qs, qe, e)),
+                    Ok(g) => {
+                        // subsequence of the stored order, every positively overlapping entry present,
+                        // nothing wholly outside
+                        let mut pos = 0usize;
+                        let mut matched = vec![false; ch.items.len()];
+                        for ge in &g {
+                            match (pos..ch.items.len()).find(|j| ch.items[*j].s == ge.0 && ch.items[*j].e == ge.1 && ch.items[*j].rest == ge.2) {
+                                Some(j) => {
+                                    matched[j] = true;
+                                    pos = j + 1;
+                                }
+                                None => {
+                                    out.fail("tool_range_query_order_or_unknown_entry", &tags, format!("{} {} [{},{}): printed {:?}, stored {:?}", what, ch.name, qs, qe, g, ch.items));
+                                    return;
+                                }
+                            }
+                        }
+                        for (j, it) in ch.items.iter().enumerate() {
+                            let must = it.e > it.s && it.s < qe && it.e > qs;
+                            let must_not = it.e < qs || it.s > qe;
+                            if must && !matched[j] {
+                                out.fail("tool_range_query_missed_entry", &tags, format!("{} {} [{},{}): entry [{},{}) overlaps but is not printed ({:?})", what, ch.name, qs, qe, it.s, it.e, g));
+                                return;
+                            }
+                            if must_not && matched[j] {
+                                out.fail("tool_range_query_disjoint_entry", &tags, format!("{} {} [{},{}): entry [{},{}) lies wholly outside but is printed", what, ch.name, qs, qe, it.s, it.e));
+                                return;
+                            }
+                        }
+                    }
+                }
+            };
+            // bigbedtobed --chrom --start --end
+            let a = vec![s("bigbedtobed"), s("f.bb"), s("o.bed"), s("--chrom"), ch.name.clone(), s("--start"), qs.to_string(), s("--end"), qe.to_string()];
+            let r = run_in(dir, &a);
+            out.count("tool_range_runs", 1);
+            if r.timed_out || r.code != Some(0) {
+                if !tags.contains(&s("bed_entry_0_0")) {
+                    out.fail("tool_range_query_failed", &tags, format!("{:?}: exit {:?} stderr {}", a, r.code, r.stderr.chars().take(200).collect::<String>()));
+                }
+            } else {
+                let text = std::fs::read_to_string(dir.join("o.bed")).unwrap_or_default();
+                judge("bigbedtobed", bed_lines_for(&ch.name, &text), out);
+            }
+            // bigtools intersect (stdout)
+            std::fs::write(dir.join("q.bed"), format!("{}\t{}\t{}\n", ch.name, qs, qe)).unwrap();
+            let a = vec![s("bigtools"), s("intersect"), s("q.bed"), s("f.bb")];
+            let r = run_in(dir, &a);
+            out.count("tool_range_runs", 1);
+            if r.timed_out || r.code != Some(0) {
+                out.fail("tool_range_query_failed", &tags, format!("{:?}: exit {:?} stderr {}", a, r.code, r.stderr.chars().take(200).collect::<String>()));
+            } else if r.stderr.contains("An error occured") {
+                // the block of a [0,0) entry cannot be read (known finding of C02/C04)
+                if !tags.contains(&s("bed_entry_0_0")) {
+                    out.fail("tool_range_query_failed", &tags, format!("{:?}: {}", a, r.stderr.chars().take(200).collect::<String>()));
+                }
+            } else {
+                // intersect prints an empty 4th column for entries without rest
+                let norm: String = r.stdout.lines().map(|l| l.trim_end_matches('\t').to_string() + "\n").collect();
+                judge("intersect", bed_lines_for(&ch.name, &norm), out);
+            }
+        }
+    }
+}
+
+pub fn c08_tool(c: &crate::model::BedCase, out: &mut Outcome) {
+    let Some(bytes) = crate::wfam::do_write_bed(c, out) else { return };
+    let tags = crate::drive::bed_tags(c);
+    let d = match indep::decode(&bytes) {
+        Ok(d) => d,
+        Err(e) => {
+            out.fail("undecodable_file", &tags, e);
+            return;
+        }
+    };
+    let wd = workdir();
+    let dir = wd.path();
+    std::fs::write(dir.join("f.bb"), &bytes).unwrap();
+    for z in &d.zooms {
+        for (ci, ch) in c.chroms.iter().enumerate() {
+            let all: Vec<&indep::ZRec> = z.blocks.iter().flatten().filter(|r| r.chrom == ci as u32).collect();
+            for (qs, qe) in [(0u32, ch.len), (3, 9), (ch.len - 1, ch.len)] {
+                let a = vec![s("bigbedtobed"), s("f.bb"), s("z.txt"), s("--zoom"), z.reduction.to_string(), s("--chrom"), ch.name.clone(), s("--start"), qs.to_string(), s("--end"), qe.to_string()];
+                let r = run_in(dir, &a);
+                out.count("tool_zoom_runs", 1);
+                if r.timed_out || r.code != Some(0) {
+                    out.fail("tool_zoom_query_failed", &tags, format!("{:?}: exit {:?} stderr {}", a, r.code, r.stderr.chars().take(200).collect::<String>()));
+                    continue;
+                }
+                let text = std::fs::read_to_string(dir.join("z.txt")).unwrap_or_default();
+                let mut got = vec![];
+                let mut bad = None;
+                for l in text.lines() {
+                    let f: Vec<&str> = l.split('\t').collect();
+                    if f.len() != 9 || f[0] != ch.name {
+                        bad = Some(format!("unexpected zoom line {:?}", l));
+                        break;
+                    }
+                    got.push((f[1].parse::<u32>().unwrap_or(u32::MAX), f[2].parse::<u32>().unwrap_or(u32::MAX), f[4].parse::<u64>().unwrap_or(u64::MAX), f[5].parse::<f64>().unwrap_or(f64::NAN), f[6].parse::<f64>().unwrap_or(f64::NAN), f[7].parse::<f64>().unwrap_or(f64::NAN)));
+                }
+                if let Some(b) = bad {
+                    out.fail("tool_zoom_output_malformed", &tags, b);
+                    continue;
+                }
+                let must: Vec<&&indep::ZRec> = all.iter().filter(|r| r.start < qe && r.end > qs).collect();
+                let mut ok = got.windows(2).all(|w| w[0].0 < w[1].0);
+                for m in &must {
+                    ok &= got.iter().any(|g| g.0 == m.start && g.1 == m.end && g.2 == m.valid as u64 && g.3 == m.min as f64 && g.4 == m.max as f64 && g.5 == m.sum as f64);
+                }
+                for g in &got {
+                    ok &= all.iter().any(|m| m.start == g.0 && m.end == g.1) && g.1 >= qs && g.0 <= qe;
+                }
+                if !ok {
+                    out.fail("tool_zoom_output_differs_from_stored_records", &tags, format!("{:?}: printed {:?}, stored records intersecting the range {:?}", a, got, must.iter().map(|m| (m.start, m.end, m.valid, m.min, m.max, m.sum)).collect::<Vec<_>>()));
+                }
+            }
+        }
+    }
+}
